@@ -5,7 +5,7 @@
   ties to `lumicks/pylake/population/dwelltime.py` and `kymotracker/kymotrack.py` on every run.
   Formulas are read at `ℝ` (rounding is not modelled).
 -/
-import Verif.Lemmas.C15
+import Verif.Lemmas.C15D
 
 namespace Verif.C15
 open Verif
@@ -332,13 +332,121 @@ example : (1.0e-14 : ℝ) ≤ 0.3 ∧ (10 : ℝ) / 0.5 < 1.0e10 := by norm_num
 -- (`_exponential_mle_bounds`): a rare component sitting on the amplitude bound is covered by the two theorems above
 example (a : ℝ) (h : (1.0e-9 : ℝ) ≤ a) : (1.0e-14 : ℝ) ≤ a := le_trans (by norm_num) h
 
-/-
-  ext `gradient_discrete_correct` — NOT PROVED (stated, left outside):
-    for the discretised model (`o.step = some Δ`, `Δ > 0`, `tmin − Δ < tmax`), under the same clip/mask
-    hypotheses, `HasDerivAt (fun a => logLikObs (pre ++ ⟨a, τ⟩ :: post) o) ((gradObsDisc …).getD pre.length (0,0)).1 a0`
-    and the analogous statement in `τ` with `.2`.
-  Covered instead by the correspondence of `gradObsDisc` with the code's Jacobian and by the 6th-order numerical
-  gradient of the oracle on every `lik` case.
--/
+/-- ext `gradient_discrete_correct` (amplitudes): for the DISCRETISED model (`Δ > 0`, `tmin − Δ < tmax`, finite or
+    infinite upper limit), any number of components, any position of the component: the derivative of the
+    log-likelihood of one observation with respect to a component's amplitude is the expression the code computes
+    (`dlognorm_damp`, `dlogamp_damp` collapsed through `logsumexp`) — provided the amplitude clip and the
+    `t_max/τ < 1e10` mask are inactive. -/
+theorem gradient_discrete_correct_amp (pre post : List (Comp ℝ)) (a0 tau t tmin : ℝ) (tmax : Option ℝ) (step : ℝ)
+    (hs : 0 < step)
+    (hadm : Admissible (pre ++ ⟨a0, tau⟩ :: post))
+    (hclip : ∀ c ∈ pre ++ ⟨a0, tau⟩ :: post, (1.0e-14 : ℝ) ≤ c.amp)
+    (hwin : ∀ m, tmax = some m → tmin - step < m)
+    (hvalid : ∀ c ∈ pre ++ ⟨a0, tau⟩ :: post, ∀ m, tmax = some m → m / c.tau < (1.0e10 : ℝ)) :
+    HasDerivAt (fun a => logLikObs (pre ++ ⟨a, tau⟩ :: post) ⟨t, tmin, tmax, some step⟩)
+      (((gradObsDisc (pre ++ ⟨a0, tau⟩ :: post) t tmin tmax step).getD pre.length (0, 0)).1) a0 := by
+  have hne : ∀ a : ℝ, pre ++ (⟨a, tau⟩ : Comp ℝ) :: post ≠ [] := fun a => by simp
+  have h0 := hadm ⟨a0, tau⟩ (by simp)
+  rw [gradObsDisc_eq_spec _ (hne a0) hadm hclip t tmin tmax step hs hwin hvalid, getD_map_mid]
+  have hw : ∀ c ∈ pre ++ ⟨a0, tau⟩ :: post, specE tmax c.tau < Real.exp (-(tmin - step) / c.tau) :=
+    fun c hc => specE_lt (tmin - step) tmax c.tau (hadm c hc).2 hwin
+  refine (hasDerivAt_logpmf_amp pre post a0 tau t tmin tmax step (specPd_pos _ (hne a0) hadm step t hs)
+    (specNormDisc_pos _ (hne a0) hadm tmin step hs tmax hw)).congr_of_eventuallyEq ?_
+  filter_upwards [Ioi_mem_nhds h0.1] with a ha
+  exact logLikObs_eq_log_specDisc _ (hne a) (admissible_replace pre post _ ⟨a, tau⟩ hadm ⟨ha, h0.2⟩)
+    tmin step t hs tmax hwin
+
+/-- ext `gradient_discrete_correct` (lifetimes): the same for the derivative with respect to a component's lifetime
+    — `tau_factor` (the `Δ·e^{−Δ/τ}` term of the discretisation factor and the boundary term
+    `t_max·e^{−t_max/τ}` included) and `dlogtauterm_dtau`. -/
+theorem gradient_discrete_correct_tau (pre post : List (Comp ℝ)) (a tau0 t tmin : ℝ) (tmax : Option ℝ) (step : ℝ)
+    (hs : 0 < step)
+    (hadm : Admissible (pre ++ ⟨a, tau0⟩ :: post))
+    (hclip : ∀ c ∈ pre ++ ⟨a, tau0⟩ :: post, (1.0e-14 : ℝ) ≤ c.amp)
+    (hwin : ∀ m, tmax = some m → tmin - step < m)
+    (hvalid : ∀ c ∈ pre ++ ⟨a, tau0⟩ :: post, ∀ m, tmax = some m → m / c.tau < (1.0e10 : ℝ)) :
+    HasDerivAt (fun tau => logLikObs (pre ++ ⟨a, tau⟩ :: post) ⟨t, tmin, tmax, some step⟩)
+      (((gradObsDisc (pre ++ ⟨a, tau0⟩ :: post) t tmin tmax step).getD pre.length (0, 0)).2) tau0 := by
+  have hne : ∀ tau : ℝ, pre ++ (⟨a, tau⟩ : Comp ℝ) :: post ≠ [] := fun tau => by simp
+  have h0 := hadm ⟨a, tau0⟩ (by simp)
+  rw [gradObsDisc_eq_spec _ (hne tau0) hadm hclip t tmin tmax step hs hwin hvalid, getD_map_mid]
+  have hw : ∀ c ∈ pre ++ ⟨a, tau0⟩ :: post, specE tmax c.tau < Real.exp (-(tmin - step) / c.tau) :=
+    fun c hc => specE_lt (tmin - step) tmax c.tau (hadm c hc).2 hwin
+  refine (hasDerivAt_logpmf_tau pre post a tau0 t tmin tmax step h0.2 (specPd_pos _ (hne tau0) hadm step t hs)
+    (specNormDisc_pos _ (hne tau0) hadm tmin step hs tmax hw)).congr_of_eventuallyEq ?_
+  filter_upwards [Ioi_mem_nhds h0.2] with tau htau
+  exact logLikObs_eq_log_specDisc _ (hne tau) (admissible_replace pre post _ ⟨a, tau⟩ hadm ⟨h0.1, htau⟩)
+    tmin step t hs tmax hwin
+
+-- non-vacuity: `Δ = 0.25`, window `0.5 − 0.25 < 10`, the `Admissible` instance above, clip and mask as before
+example : (0 : ℝ) < 0.25 ∧ (0.5 : ℝ) - 0.25 < 10 ∧ (1.0e-14 : ℝ) ≤ 0.3 ∧ (10 : ℝ) / 0.5 < 1.0e10 := by norm_num
+
+/-! ## The Jacobian handed to the optimiser is the gradient of the negative log-likelihood -/
+
+/-- one observation, either variant: the per-observation amplitude / lifetime term of component `pre.length` is the
+    derivative of that observation's log-likelihood (`GradOk`: proper window, mask inactive) -/
+theorem gradObs_correct_amp (pre post : List (Comp ℝ)) (a0 tau : ℝ) (o : Obs ℝ)
+    (hadm : Admissible (pre ++ ⟨a0, tau⟩ :: post))
+    (hclip : ∀ c ∈ pre ++ ⟨a0, tau⟩ :: post, (1.0e-14 : ℝ) ≤ c.amp)
+    (hok : GradOk (pre ++ ⟨a0, tau⟩ :: post) o) :
+    HasDerivAt (fun a => logLikObs (pre ++ ⟨a, tau⟩ :: post) o)
+      (((gradObs (pre ++ ⟨a0, tau⟩ :: post) o).getD pre.length (0, 0)).1) a0 := by
+  obtain ⟨t, tmin, tmax, step⟩ := o
+  cases step with
+  | none => exact gradient_continuous_correct_amp pre post a0 tau t tmin tmax hadm hclip hok.1 hok.2
+  | some d => exact gradient_discrete_correct_amp pre post a0 tau t tmin tmax d hok.1 hadm hclip hok.2.1 hok.2.2
+
+theorem gradObs_correct_tau (pre post : List (Comp ℝ)) (a tau0 : ℝ) (o : Obs ℝ)
+    (hadm : Admissible (pre ++ ⟨a, tau0⟩ :: post))
+    (hclip : ∀ c ∈ pre ++ ⟨a, tau0⟩ :: post, (1.0e-14 : ℝ) ≤ c.amp)
+    (hok : GradOk (pre ++ ⟨a, tau0⟩ :: post) o) :
+    HasDerivAt (fun tau => logLikObs (pre ++ ⟨a, tau⟩ :: post) o)
+      (((gradObs (pre ++ ⟨a, tau0⟩ :: post) o).getD pre.length (0, 0)).2) tau0 := by
+  obtain ⟨t, tmin, tmax, step⟩ := o
+  cases step with
+  | none => exact gradient_continuous_correct_tau pre post a tau0 t tmin tmax hadm hclip hok.1 hok.2
+  | some d => exact gradient_discrete_correct_tau pre post a tau0 t tmin tmax d hok.1 hadm hclip hok.2.1 hok.2.2
+
+/-- `jacobian_is_gradient` (amplitude block): for ANY list of observations (continuous and discretised ones, each
+    with its own limits), any number of components: entry `i` of the vector
+    `_exponential_mixture_log_likelihood_jacobian` returns — the per-observation terms summed over the observations
+    (`np.sum(unsummed_gradient, axis=1)`), negated, amplitudes first — is the derivative of the NEGATIVE
+    log-likelihood `_exponential_mixture_log_likelihood` with respect to the amplitude of component `i`
+    (the other parameters fixed): the gradient handed to SLSQP is the gradient of the cost function. -/
+theorem jacobian_is_gradient_amp (pre post : List (Comp ℝ)) (a0 tau : ℝ) (obs : List (Obs ℝ))
+    (hadm : Admissible (pre ++ ⟨a0, tau⟩ :: post))
+    (hclip : ∀ c ∈ pre ++ ⟨a0, tau⟩ :: post, (1.0e-14 : ℝ) ≤ c.amp)
+    (hok : ∀ o ∈ obs, GradOk (pre ++ ⟨a0, tau⟩ :: post) o) :
+    HasDerivAt (fun a => negLogLik (pre ++ ⟨a, tau⟩ :: post) obs)
+      ((jacobian (pre ++ ⟨a0, tau⟩ :: post) obs).getD pre.length 0) a0 := by
+  rw [jacobian_getD_amp _ obs pre.length (by simp)]
+  exact hasDerivAt_negLogLik (fun a => pre ++ ⟨a, tau⟩ :: post) obs _ a0
+    fun o ho => gradObs_correct_amp pre post a0 tau o hadm hclip (hok o ho)
+
+/-- `jacobian_is_gradient` (lifetime block): entry `n + i` is the derivative of the negative log-likelihood with
+    respect to the lifetime of component `i`. -/
+theorem jacobian_is_gradient_tau (pre post : List (Comp ℝ)) (a tau0 : ℝ) (obs : List (Obs ℝ))
+    (hadm : Admissible (pre ++ ⟨a, tau0⟩ :: post))
+    (hclip : ∀ c ∈ pre ++ ⟨a, tau0⟩ :: post, (1.0e-14 : ℝ) ≤ c.amp)
+    (hok : ∀ o ∈ obs, GradOk (pre ++ ⟨a, tau0⟩ :: post) o) :
+    HasDerivAt (fun tau => negLogLik (pre ++ ⟨a, tau⟩ :: post) obs)
+      ((jacobian (pre ++ ⟨a, tau0⟩ :: post) obs).getD
+        ((pre ++ (⟨a, tau0⟩ : Comp ℝ) :: post).length + pre.length) 0) tau0 := by
+  rw [jacobian_getD_tau _ obs pre.length (by simp)]
+  exact hasDerivAt_negLogLik (fun tau => pre ++ ⟨a, tau⟩ :: post) obs _ tau0
+    fun o ho => gradObs_correct_tau pre post a tau0 o hadm hclip (hok o ho)
+
+-- non-vacuity: a continuous and a discretised observation (the latter without upper limit) meet `GradOk`
+example : ∀ o ∈ ([⟨2, 0.5, some 10, none⟩, ⟨1.5, 0.5, none, some 0.25⟩] : List (Obs ℝ)),
+    GradOk [⟨0.3, 0.5⟩, ⟨0.7, 4⟩] o := by
+  intro o ho
+  simp only [List.mem_cons, List.not_mem_nil, or_false] at ho
+  rcases ho with rfl | rfl
+  · refine ⟨fun m hm => ?_, fun c hc m hm => ?_⟩
+    · cases hm; norm_num
+    · cases hm
+      simp only [List.mem_cons, List.not_mem_nil, or_false] at hc
+      rcases hc with rfl | rfl <;> norm_num
+  · refine ⟨by norm_num, fun m hm => ?_, fun c _ m hm => ?_⟩ <;> cases hm
 
 end Verif.C15
